@@ -10,7 +10,7 @@ I64MIN, I64MAX = -2 ** 63, 2 ** 63 - 1
 def check(run):
     rng = random.Random(run.seed)
     check_obligations(run)
-    dbs = dbgen.corpus(run, "c04", which=("deep", "ipk", "ovf", "mix", "tiny"))
+    dbs = dbgen.corpus(run, "c04", which=("deep", "ipk", "ovf", "alias", "mix", "tiny"))
     res, impl, model = ops.full_scans(dbs, "c04-scan")
     lines, expect, meta = [], {}, {}
     ntables = 0
@@ -58,6 +58,19 @@ def check(run):
                     cid3 = cid + "/pk"
                     lines.append((cid3, "pkselect %s i%d %s" % (name, k, colnames)))
                     expect[cid3] = hrow + ["end ok", "locks lock,unlock locked=false"]
+            # the same handle, the other way round, and once more: a lookup must not depend on what was read before it
+            # (small tables only; on the `alias` leaves the spilled row is read before the row stored behind it)
+            if len(present) <= 64:
+                for rnd, order in (("r2", sorted(present, reverse=True)), ("r3", sorted(present))):
+                    for k in order:
+                        cid = "%d/%s/%d/%s" % (i, name, k, rnd)
+                        lines.append((cid, "rowid %d %d" % (t["root"], k)))
+                        expect[cid] = ["found " + rows[k]]
+                        meta[cid] = "repeat"
+                        cidh = cid + "/hl"
+                        hexp = conn.execute("SELECT rowid, %s FROM %s WHERE rowid=?" % (",".join(t["cols"]), name), (k,)).fetchall()
+                        lines.append((cidh, "selectrowid %s %d %s" % (name, k, ",".join(["rowid"] + t["cols"]))))
+                        expect[cidh] = ["row " + sqlfmt.canon_rec(r) for r in hexp] + ["end ok", "locks lock,unlock locked=false"]
         conn.close()
     res, impl2, model2 = ops.run_cmds("c04-probe", lines, timeout=1200, shards=8)
     kinds = {}
